@@ -21,7 +21,7 @@ import traceback
 
 from .loop import HarnessError
 
-RUN_WALL_LIMIT = 60.0
+RUN_WALL_LIMIT = 300.0
 
 _SRC = None
 
